@@ -981,6 +981,10 @@ So, it's better to have dead sync replica in active list, than alive sync replic
 func (app *App) updateActiveNodes(clusterState, clusterStateDcs map[string]*nodestate.NodeState, oldActiveNodes []string, master string) error {
 	masterNode := app.cluster.Get(master)
 	masterState := clusterState[master]
+	if masterNode == nil || masterState == nil {
+		// master left the registry (background refresh) after this iteration probed it
+		return fmt.Errorf("master %s is not a registered cluster host", master)
+	}
 	activeNodes, err := app.calcActiveNodes(clusterState, clusterStateDcs, oldActiveNodes, master)
 	if err != nil {
 		app.logger.Error().Err(err).Msg("update active nodes: failed to calc new active nodes")
